@@ -47,7 +47,20 @@ class Unsupported(Exception):
 # ---------------------------------------------------------------------------------------------------------------------
 # types:  "str" | "optstr" | "bool" | "sdict" | ("tuple", (t, ...)) | any other string = an opaque Lean type name
 
-LEAN_TYPES = {"str": "String", "optstr": "Option String", "bool": "Bool", "sdict": "SDict"}
+LEAN_TYPES = {"str": "String", "optstr": "Option String", "bool": "Bool", "sdict": "SDict", "int": "Int",
+              "slist": "List String", "sset": "List String", "unit": "Unit"}
+
+# value a `let mut` is declared with when Python first assigns the name inside the branches of an `if` (every branch
+# assigns it before any read — checked — so the value is never seen)
+LEAN_DEFAULTS = {"str": '""', "optstr": "none", "bool": "false", "int": "0", "slist": "[]", "sset": "[]"}
+
+# Lean names of the string primitives (Python semantics on ASCII); the defaults are those of I2N/Model/Rules.lean, which
+# `./check C10` cross-checks against Python on every run (correspondence part (h)); a spec may rename them
+DEFAULT_PRIMS = {"substr": "isSubstr",                 # a in b          (strings)
+                 "lower": "lower",                     # s.lower()
+                 "split_ws": "splitWs",                # s.split()
+                 "startswith": "pyStartsWith"}         # s.startswith(p)  — to be defined by the spec's prelude
+
 
 LEAN_KEYWORDS = {
     "local", "end", "from", "at", "in", "do", "then", "else", "if", "let", "have", "show", "fun", "match", "with", "for",
@@ -64,7 +77,22 @@ LEAN_KEYWORDS = {
 def lean_type(t):
     if isinstance(t, tuple) and t[0] == "tuple":
         return " × ".join(("(" + lean_type(x) + ")") if isinstance(x, tuple) else lean_type(x) for x in t[1])
+    if isinstance(t, tuple) and t[0] == "list":
+        return "List " + (("(" + lean_type(t[1]) + ")") if isinstance(t[1], tuple) or " " in lean_type(t[1]) else lean_type(t[1]))
     return LEAN_TYPES.get(t, t)
+
+
+def elem_type(t):
+    """element type of a list type (None when `t` is not a list)"""
+    if t == "slist":
+        return "str"
+    if isinstance(t, tuple) and t[0] == "list":
+        return t[1]
+    return None
+
+
+def list_of(t):
+    return "slist" if t == "str" else ("list", t)
 
 
 def lean_str(s):
@@ -78,8 +106,12 @@ def lean_str(s):
             out.append("\\n")
         elif 32 <= ord(ch) < 127:
             out.append(ch)
+        elif ord(ch) < 256:
+            out.append("\\x%02x" % ord(ch))
+        elif ord(ch) < 0x10000:
+            out.append("\\u%04x" % ord(ch))
         else:
-            out.append("\\u{%x}" % ord(ch))
+            raise Unsupported(f"string constant with the character U+{ord(ch):X}")
     return '"' + "".join(out) + '"'
 
 
@@ -114,23 +146,56 @@ class Spec:
     params      {python parameter name: (Lean term, type) | None}; `None` = the parameter has no meaning of its own (it
                 may only occur inside atoms and pinned blocks); `self` / `cls` are dropped.  The parameter list of the
                 Python function must be exactly the keys, in order.
-    atoms       {python expression source: (Lean term, type)}
-    blocks      [(python source of a whole branch body, Lean term, type)]
-    ret         type of the returned value
-    monad       "except" (dictionary reads allowed; result `Except Err <ret>`) | "pure" (`Id.run do`)
+    atoms       {python expression source: (Lean term, type) | (Lean term, type, kind)}; kind "pure" (default),
+                "raises" (the Lean term is an action of the function's monad that may fail: emitted as `(← term)`, refused
+                where Python may skip the evaluation) or "reads" (an action that neither fails nor changes anything:
+                emitted as `(← term)` anywhere outside a lambda)
+    calls       {python call source with the positional arguments other than string constants replaced by `_1`, `_2`, …:
+                (Lean template with `{1}`,
+                `{2}`, …, result type, kind[, argument types])}: an atom with translated arguments, e.g.
+                `self.params.get_numeric('max_tries', _1)` -> `(← getNumeric c.maxTries {1})`; kind as for atoms, or
+                "action" for a call used as a statement (result type "unit")
+    blocks      [(python source of a whole branch body, Lean term, type)]: the body stands for `return <term>`
+    assign_blocks [(python source of a whole branch body, variable, Lean term, type)]: the body stands for
+                `variable := <term>` (its net effect; everything else it does is undone inside the body)
+    raises      [(exception class, prefix of the message template, Lean term)]: `raise Cls(f"…")` -> `throw <term>`; the
+                template is the message with every non-constant `{…}` replaced by `{}`
+    ignored_calls  dotted names of functions whose calls *as statements* have no effect on the decision (`logging.debug`)
+    transparent_with  dotted names of context managers whose `with` body is translated in place (`image_lock`: the lock
+                protocol is modelled separately)
+    fields      {(opaque type, "['key']" | ".attr"): (Lean template with `{0}`, type)}: reads on values of list elements
+    prims       Lean names of the string primitives (see DEFAULT_PRIMS)
+    ret         type of the returned value ("unit": the function returns None, bare `return` and falling off the end allowed)
+    monad       "except" (dictionary reads / raises allowed; result `Except Err <ret>`) | "pure" (`Id.run do`) |
+                any other text = the monad itself, e.g. "StateT FS (Except Err)"
+    prelude     Lean lines printed before the definition (helper definitions the atom table refers to; trusted with it)
+    local_types {name: type} for locals whose first value is the empty list `[]`
     """
 
-    def __init__(self, lean_name, binders, params, ret, atoms=None, blocks=None, monad="pure", doc=""):
+    def __init__(self, lean_name, binders, params, ret, atoms=None, blocks=None, monad="pure", doc="", calls=None,
+                 assign_blocks=None, raises=None, ignored_calls=(), transparent_with=(), fields=None, prims=None,
+                 prelude=(), local_types=None):
         self.lean_name = lean_name
         self.binders = list(binders)
         self.params = dict(params)
         self.ret = ret
-        self.atoms = {norm_expr(k): v for k, v in (atoms or {}).items()}
+        self.atoms = {norm_expr(k): (tuple(v) + ("pure",))[:3] for k, v in (atoms or {}).items()}
+        self.calls = {norm_expr(k): tuple(v) for k, v in (calls or {}).items()}
         self.blocks = [(norm_block(src), term, typ) for src, term, typ in (blocks or [])]
-        if monad not in ("except", "pure"):
-            raise ValueError(monad)
+        self.assign_blocks = [(norm_block(src), var, term, typ) for src, var, term, typ in (assign_blocks or [])]
+        self.raises = list(raises or [])
+        self.ignored_calls = set(ignored_calls)
+        self.transparent_with = set(transparent_with)
+        self.fields = dict(fields or {})
+        self.prims = dict(DEFAULT_PRIMS, **(prims or {}))
+        self.prelude = list(prelude)
+        self.local_types = dict(local_types or {})
         self.monad = monad
         self.doc = doc
+
+    @property
+    def monadic(self):
+        return self.monad != "pure"
 
 
 # ---------------------------------------------------------------------------------------------------------------------
@@ -142,6 +207,9 @@ def find_function(tree, qualname):
     parts = qualname.split(".")
     for i, part in enumerate(parts):
         hits = [n for n in body if isinstance(n, (ast.FunctionDef, ast.AsyncFunctionDef, ast.ClassDef)) and n.name == part]
+        if node is not None and isinstance(node, ast.FunctionDef):
+            # a function defined inside a function: it must be a plain statement of the outer body
+            hits = [n for n in body if isinstance(n, ast.FunctionDef) and n.name == part]
         # a later plain assignment to the same name would replace the definition
         rebinds = [n for n in body if isinstance(n, (ast.Assign, ast.AnnAssign, ast.AugAssign))
                    and any(isinstance(t, ast.Name) and t.id == part
@@ -150,11 +218,11 @@ def find_function(tree, qualname):
             raise Unsupported(f"{qualname}: {part!r} is defined {len(hits)} times / rebound {len(rebinds)} times")
         node = hits[0]
         last = i == len(parts) - 1
-        if last != isinstance(node, ast.FunctionDef):
+        if (last and not isinstance(node, ast.FunctionDef)) or isinstance(node, ast.AsyncFunctionDef):
             raise Unsupported(f"{qualname}: {part!r} is a {type(node).__name__}")
         body = node.body
     for d in node.decorator_list:
-        if not (isinstance(d, ast.Name) and d.id in ("classmethod", "staticmethod")):
+        if not (isinstance(d, ast.Name) and d.id in ("classmethod", "staticmethod", "property")):
             raise Unsupported(f"{qualname}: decorator {ast.unparse(d)} is not understood")
     return node
 
@@ -191,8 +259,14 @@ class _Fn:
         self.inline = {}        # name -> python AST of its defining (opaque) expression
         self.fresh_dicts = set()  # locals that hold a dictionary created by a literal here
         self.lines = []
+        self.scopes = []        # variables bound by a Lean lambda / match arm: [{python name: (Lean text, type)}]
+        self.lam = 0            # > 0 inside a Lean lambda: nothing monadic may be emitted there
+        self.pending = {}       # names declared in front of an enclosing `if`: name -> [line index, type | None, depth]
+        self.logseen = set()    # log-only locals assigned so far
         self.assigned = self._assigned_names(fn)
-        self.uses = {"atoms": set(), "blocks": set()}
+        self.loopvars = self._loop_targets(fn)
+        self.logonly = self._log_only_names()
+        self.uses = {"atoms": set(), "blocks": set(), "assign_blocks": set(), "calls": set(), "raises": set()}
         args = fn.args
         if args.vararg or args.kwarg or args.kwonlyargs or args.posonlyargs:
             raise Unsupported(f"{fn.name}: *args / **kwargs / keyword-only / positional-only parameters")
@@ -204,9 +278,9 @@ class _Fn:
         for n in self.assigned:
             if n in spec.params or n in ("self", "cls"):
                 raise Unsupported(f"{fn.name}: assignment to the parameter {n!r}")
-        for key in spec.atoms:
+        for key in list(spec.atoms) + list(spec.calls):
             for x in ast.walk(ast.parse(key, mode="eval")):
-                if isinstance(x, ast.Name) and x.id in self.assigned:
+                if isinstance(x, ast.Name) and x.id in self.assigned and x.id not in self.loopvars:
                     raise Unsupported(f"{fn.name}: the atom `{key}` mentions {x.id!r}, which the function assigns")
 
     @staticmethod
@@ -220,6 +294,42 @@ class _Fn:
             elif isinstance(n, (ast.Global, ast.Nonlocal, ast.NamedExpr, ast.Import, ast.ImportFrom)):
                 raise Unsupported(f"{fn.name}: {type(n).__name__}")
         return out
+
+    def _loop_targets(self, fn):
+        """names bound ONLY as the target of `for` statements / comprehensions (each such binding is a Lean lambda
+        variable; an atom may mention them)"""
+        cnt = {}
+        for n in ast.walk(fn):
+            tgt = n.target if isinstance(n, (ast.For, ast.comprehension)) else None
+            if tgt is not None:
+                for x in ast.walk(tgt):
+                    if isinstance(x, ast.Name):
+                        cnt[x.id] = cnt.get(x.id, 0) + 1
+        return {k for k, v in cnt.items() if v == self.assigned.get(k)}
+
+    def _bound(self, node):
+        """every local of the function that the (untranslated) message expression `node` reads has been assigned on the
+        way here (Python would raise UnboundLocalError otherwise)"""
+        for x in ast.walk(node):
+            if isinstance(x, ast.Name) and isinstance(x.ctx, ast.Load) and x.id in self.assigned:
+                if not (x.id in self.locals or x.id in self.inline or x.id in self.logseen
+                        or any(x.id in sc for sc in self.scopes)):
+                    return False
+        return True
+
+    def _is_ignored_call(self, s):
+        return isinstance(s, ast.Expr) and isinstance(s.value, ast.Call) and _dotted(s.value.func) in self.spec.ignored_calls
+
+    def _log_only_names(self):
+        """assigned names that are read nowhere but in the arguments of ignored calls (log messages) or in the messages
+        of `raise` statements"""
+        inside = set()
+        for n in ast.walk(self.fn):
+            if self._is_ignored_call(n) or isinstance(n, ast.Raise):
+                inside |= {id(x) for x in ast.walk(n)}
+        read_elsewhere = {x.id for x in ast.walk(self.fn)
+                          if isinstance(x, ast.Name) and isinstance(x.ctx, ast.Load) and id(x) not in inside}
+        return {k for k in self.assigned if k not in read_elsewhere and k not in self.loopvars}
 
     # ---- atoms ------------------------------------------------------------------------------------------------------
 
@@ -242,19 +352,51 @@ class _Fn:
             self.uses["atoms"].add(key)
         return hit
 
+    def _wrap(self, term, kind, node, eff):
+        """how a (possibly monadic) atom is used inside an expression"""
+        if kind == "pure":
+            return term
+        where = f"{self.fn.name}:{getattr(node, 'lineno', '?')}"
+        if kind not in ("raises", "reads"):
+            raise Unsupported(f"{where}: `{ast.unparse(node)}` is an atom of kind {kind!r}, used as a value")
+        if not self.spec.monadic:
+            raise Unsupported(f"{where}: `{ast.unparse(node)}` is an action, the function is declared pure")
+        if self.lam:
+            raise Unsupported(f"{where}: the action `{ast.unparse(node)}` inside a loop body / comprehension")
+        if kind == "raises" and not eff:
+            raise Unsupported(f"{where}: `{ast.unparse(node)}` may raise and stands in a position Python may skip "
+                              "(right operand of and/or, conditional expression)")
+        return f"(← {term})"
+
     # ---- expressions --------------------------------------------------------------------------------------------------
     # expr(node, eff) -> (Lean text, type); `eff` False = a position Python may skip (right of and/or, branches of a
-    # conditional expression): dictionary reads are refused there
+    # conditional expression): dictionary reads and atoms that may raise are refused there
 
     def expr(self, node, eff=True):
         hit = self.atom(node)
         if hit is not None:
-            return hit
+            return self._wrap(hit[0], hit[2], node, eff), hit[1]
         m = getattr(self, "e_" + type(node).__name__, None)
         if m is None:
             raise Unsupported(f"{self.fn.name}:{getattr(node, 'lineno', '?')}: expression `{ast.unparse(node)}` "
                               f"({type(node).__name__}) is outside the subset and not an atom")
         return m(node, eff)
+
+    def cond(self, node, eff=True):
+        """Lean Bool for the truthiness of `node`: Booleans, lists and sets (non-empty), and/or/not of those.  The
+        truthiness of strings, optionals and numbers is refused (atoms only)."""
+        if isinstance(node, ast.BoolOp) and self.atom(node) is None:
+            parts = [self.cond(v, eff and i == 0) for i, v in enumerate(node.values)]
+            return "(" + (" && " if isinstance(node.op, ast.And) else " || ").join(parts) + ")"
+        if isinstance(node, ast.UnaryOp) and isinstance(node.op, ast.Not) and self.atom(node) is None:
+            return f"(!{self.cond(node.operand, eff)})"
+        t, ty = self.expr(node, eff)
+        if ty == "bool":
+            return t
+        if ty in ("slist", "sset") or elem_type(ty) is not None:
+            return f"(!{t}.isEmpty)"
+        raise Unsupported(f"{self.fn.name}:{getattr(node, 'lineno', '?')}: `{ast.unparse(node)}` is a {ty}, not a Boolean "
+                          "or a list (truthiness of other values only through atoms)")
 
     def e_Constant(self, node, eff):
         v = node.value
@@ -264,10 +406,15 @@ class _Fn:
             return lean_str(v), "str"
         if v is None:
             return "(none : Option String)", "optstr"
+        if isinstance(v, int):
+            return f"({v} : Int)", "int"
         raise Unsupported(f"{self.fn.name}:{node.lineno}: constant {v!r}")
 
     def e_Name(self, node, eff):
         n = node.id
+        for sc in reversed(self.scopes):
+            if n in sc:
+                return sc[n]
         if n in self.locals:
             return lean_ident(n), self.locals[n]
         if n in self.inline:
@@ -285,6 +432,27 @@ class _Fn:
         parts = [self.expr(e, eff) for e in node.elts]
         return "(" + ", ".join(p[0] for p in parts) + ")", ("tuple", tuple(p[1] for p in parts))
 
+    def e_List(self, node, eff):
+        """a non-empty literal list (of strings, or of values of one opaque type)"""
+        if not node.elts or any(isinstance(e, ast.Starred) for e in node.elts):
+            raise Unsupported(f"{self.fn.name}:{node.lineno}: list `{ast.unparse(node)}` (only non-empty lists; an empty "
+                              "list only as the first value of a local whose type the spec declares)")
+        parts = [self.expr(e, eff) for e in node.elts]
+        tys = {p[1] for p in parts}
+        if len(tys) != 1 or isinstance(parts[0][1], tuple) or parts[0][1] in ("sdict", "sset", "slist", "unit"):
+            raise Unsupported(f"{self.fn.name}:{node.lineno}: list `{ast.unparse(node)}` of {sorted(map(str, tys))}")
+        return "[" + ", ".join(p[0] for p in parts) + "]", list_of(parts[0][1])
+
+    def e_Set(self, node, eff):
+        """`{*xs}`: the set of the strings of a list — a value of which only emptiness (and the emptiness of its
+        differences / intersections) can be observed in the subset"""
+        if len(node.elts) != 1 or not isinstance(node.elts[0], ast.Starred):
+            raise Unsupported(f"{self.fn.name}:{node.lineno}: set `{ast.unparse(node)}` (only `{{*list}}`)")
+        t, ty = self.expr(node.elts[0].value, eff)
+        if ty not in ("slist", "sset"):
+            raise Unsupported(f"{self.fn.name}:{node.lineno}: set of a {ty}")
+        return t, "sset"
+
     def e_Dict(self, node, eff):
         keys = []
         items = []
@@ -300,27 +468,56 @@ class _Fn:
             items.append(f"({lean_str(k.value)}, {t})")
         return "([" + ", ".join(items) + "] : SDict)", "sdict"
 
+    def _field(self, node, base, ty, sel):
+        hit = self.spec.fields.get((ty, sel))
+        if hit is None:
+            raise Unsupported(f"{self.fn.name}:{node.lineno}: `{ast.unparse(node)}`: no field {sel} declared for {ty}")
+        return hit[0].format(base), hit[1]
+
     def e_Subscript(self, node, eff):
         if not isinstance(node.ctx, ast.Load):
             raise Unsupported(f"{self.fn.name}:{node.lineno}: `{ast.unparse(node)}`")
         d, ty = self.expr(node.value, eff)
-        if ty != "sdict" or not (isinstance(node.slice, ast.Constant) and isinstance(node.slice.value, str)):
+        if not (isinstance(node.slice, ast.Constant) and isinstance(node.slice.value, str)):
+            raise Unsupported(f"{self.fn.name}:{node.lineno}: subscript `{ast.unparse(node)}` (only [\"literal\"])")
+        if isinstance(ty, str) and ty not in LEAN_TYPES:
+            return self._field(node, d, ty, f"[{node.slice.value!r}]")
+        if ty != "sdict":
             raise Unsupported(f"{self.fn.name}:{node.lineno}: subscript `{ast.unparse(node)}` (only dict[\"literal\"])")
         if self.spec.monad != "except":
-            raise Unsupported(f"{self.fn.name}:{node.lineno}: dictionary read in a function declared pure")
-        if not eff:
+            raise Unsupported(f"{self.fn.name}:{node.lineno}: dictionary read in a function not declared `except`")
+        if not eff or self.lam:
             raise Unsupported(f"{self.fn.name}:{node.lineno}: dictionary read `{ast.unparse(node)}` in a position "
-                              "Python may skip (right operand of and/or, conditional expression)")
+                              "Python may skip (right operand of and/or, conditional expression, loop body)")
         return f"(← SDict.getItem {d} {lean_str(node.slice.value)})", "str"
 
+    def e_Attribute(self, node, eff):
+        d, ty = self.expr(node.value, eff)
+        if isinstance(ty, str) and ty not in LEAN_TYPES:
+            return self._field(node, d, ty, "." + node.attr)
+        raise Unsupported(f"{self.fn.name}:{node.lineno}: attribute `{ast.unparse(node)}` of a {ty}")
+
     def _eq(self, a, ta, b, tb, where):
-        if ta == tb and ta in ("str", "optstr", "bool"):
+        if ta == tb and ta in ("str", "optstr", "bool", "int"):
             return f"({a} == {b})"
         if (ta, tb) == ("optstr", "str"):
             return f"({a} == some {b})"
         if (ta, tb) == ("str", "optstr"):
             return f"(some {a} == {b})"
         raise Unsupported(f"{where}: comparison of {ta} with {tb}")
+
+    def _len_of_set(self, node):
+        """`len(S)` for a set valued S (only its comparison with 0 is translated) -> Lean text of S, or None"""
+        if isinstance(node, ast.Call) and isinstance(node.func, ast.Name) and node.func.id == "len" \
+                and node.func.id not in self.assigned and len(node.args) == 1 and not node.keywords \
+                and self.atom(node) is None:
+            try:
+                t, ty = self.expr(node.args[0], False)
+            except Unsupported:
+                return None
+            if ty == "sset":
+                return t
+        return None
 
     def e_Compare(self, node, eff):
         where = f"{self.fn.name}:{node.lineno}"
@@ -330,16 +527,30 @@ class _Fn:
         # the negative forms of atoms:  `a not in b`, `a != b`, `a is not b`
         pos = {ast.NotIn: ast.In, ast.NotEq: ast.Eq, ast.IsNot: ast.Is}.get(type(op))
         if pos is not None:
-            hit = self.atom(ast.Compare(left=node.left, ops=[pos()], comparators=[right]))
+            pnode = ast.Compare(left=node.left, ops=[pos()], comparators=[right])
+            hit = self.atom(pnode)
             if hit is not None:
                 if hit[1] != "bool":
                     raise Unsupported(f"{where}: atom of type {hit[1]} negated")
-                return f"(!{hit[0]})", "bool"
+                return f"(!{self._wrap(hit[0], hit[2], node, eff)})", "bool"
+        s = self._len_of_set(node.left)
+        if s is not None:
+            if not (isinstance(right, ast.Constant) and right.value == 0 and not isinstance(right.value, bool)
+                    and isinstance(op, (ast.Gt, ast.Eq, ast.NotEq))):
+                raise Unsupported(f"{where}: `{ast.unparse(node)}`: the size of a set may only be compared with 0 (>, ==, !=)")
+            return (f"{s}.isEmpty" if isinstance(op, ast.Eq) else f"(!{s}.isEmpty)"), "bool"
         if isinstance(op, (ast.Eq, ast.NotEq)):
             a, ta = self.expr(node.left, eff)
             b, tb = self.expr(right, eff)
             t = self._eq(a, ta, b, tb, where)
             return (t if isinstance(op, ast.Eq) else f"(!{t})"), "bool"
+        if isinstance(op, (ast.Lt, ast.LtE, ast.Gt, ast.GtE)):
+            a, ta = self.expr(node.left, eff)
+            b, tb = self.expr(right, eff)
+            if (ta, tb) != ("int", "int"):
+                raise Unsupported(f"{where}: order comparison of {ta} with {tb} (integers only)")
+            sym = {ast.Lt: "<", ast.LtE: "≤", ast.Gt: ">", ast.GtE: "≥"}[type(op)]
+            return f"(decide ({a} {sym} {b}))", "bool"
         if isinstance(op, (ast.Is, ast.IsNot)):
             if not (isinstance(right, ast.Constant) and right.value is None):
                 raise Unsupported(f"{where}: `{ast.unparse(node)}` (only `is None` / `is not None`)")
@@ -354,8 +565,21 @@ class _Fn:
                     and right.id not in self.spec.params:
                 lits = self.consts.get(right.id)
             if lits is None:
-                raise Unsupported(f"{where}: `{ast.unparse(node)}`: the right side is neither a literal list of strings "
-                                  "nor a module constant holding one, and the test is not an atom")
+                # membership in a list valued expression / substring test between two string valued expressions
+                try:
+                    b, tb = self.expr(right, eff)
+                except Unsupported as e:
+                    raise Unsupported(f"{where}: `{ast.unparse(node)}`: the right side is neither a literal list of "
+                                      f"strings, a module constant holding one, a list or a string, and the test is "
+                                      f"not an atom ({e})")
+                a, ta = self.expr(node.left, eff)
+                if (ta, tb) == ("str", "slist"):
+                    t = f"({b}.contains {a})"
+                elif (ta, tb) == ("str", "str"):
+                    t = f"({self.spec.prims['substr']} {a} {b})"
+                else:
+                    raise Unsupported(f"{where}: `{ast.unparse(node)}`: membership of a {ta} in a {tb}")
+                return (t if isinstance(op, ast.In) else f"(!{t})"), "bool"
             a, ta = self.expr(node.left, eff)
             if ta == "str":
                 lst = "[" + ", ".join(lean_str(x) for x in lits) + "]"
@@ -368,35 +592,187 @@ class _Fn:
         raise Unsupported(f"{where}: operator in `{ast.unparse(node)}`")
 
     def e_BoolOp(self, node, eff):
-        parts = []
-        for i, v in enumerate(node.values):
-            t, ty = self.expr(v, eff and i == 0)
-            if ty != "bool":
-                raise Unsupported(f"{self.fn.name}:{node.lineno}: operand `{ast.unparse(v)}` of and/or is a {ty}, "
-                                  "not a Boolean (truthiness of other values only through atoms)")
-            parts.append(t)
-        return "(" + (" && " if isinstance(node.op, ast.And) else " || ").join(parts) + ")", "bool"
+        parts = [self.expr(v, eff and i == 0) for i, v in enumerate(node.values)]
+        tys = {p[1] for p in parts}
+        if tys == {"bool"}:
+            return "(" + (" && " if isinstance(node.op, ast.And) else " || ").join(p[0] for p in parts) + ")", "bool"
+        if len(tys) == 1 and isinstance(node.op, ast.Or) and elem_type(parts[0][1]) is not None:
+            # `a or b` on lists: the first non-empty operand (the last one when all are empty)
+            ty = parts[0][1]
+            out = parts[-1][0]
+            for t, _ in reversed(parts[:-1]):
+                out = f"(let pyOrLeft : {lean_type(ty)} := {t}; if pyOrLeft.isEmpty then {out} else pyOrLeft)"
+            return out, ty
+        bad = [ast.unparse(v) for v, p in zip(node.values, parts) if p[1] != "bool"]
+        raise Unsupported(f"{self.fn.name}:{node.lineno}: operand `{bad[0]}` of and/or is not a Boolean "
+                          "(as a value: only `or` between lists; truthiness of other values only through atoms)")
 
     def e_UnaryOp(self, node, eff):
+        if isinstance(node.op, ast.USub) and isinstance(node.operand, ast.Constant) and type(node.operand.value) is int:
+            return f"(-{node.operand.value} : Int)", "int"
         if not isinstance(node.op, ast.Not):
             raise Unsupported(f"{self.fn.name}:{node.lineno}: `{ast.unparse(node)}`")
-        t, ty = self.expr(node.operand, eff)
-        if ty != "bool":
-            raise Unsupported(f"{self.fn.name}:{node.lineno}: `not` of a {ty}")
-        return f"(!{t})", "bool"
+        return f"(!{self.cond(node.operand, eff)})", "bool"
 
     def e_IfExp(self, node, eff):
-        c, tc = self.expr(node.test, eff)
+        c = self.cond(node.test, eff)
         a, ta = self.expr(node.body, False)
         b, tb = self.expr(node.orelse, False)
-        if tc != "bool" or ta != tb:
-            raise Unsupported(f"{self.fn.name}:{node.lineno}: `{ast.unparse(node)}`: condition {tc}, branches {ta}/{tb}")
+        if ta != tb:
+            raise Unsupported(f"{self.fn.name}:{node.lineno}: `{ast.unparse(node)}`: branches {ta}/{tb}")
         return f"(if {c} then {a} else {b})", ta
+
+    def e_BinOp(self, node, eff):
+        where = f"{self.fn.name}:{node.lineno}"
+        a, ta = self.expr(node.left, eff)
+        b, tb = self.expr(node.right, eff)
+        if (ta, tb) == ("int", "int") and isinstance(node.op, (ast.Add, ast.Sub, ast.Mult)):
+            sym = {ast.Add: "+", ast.Sub: "-", ast.Mult: "*"}[type(node.op)]
+            return f"({a} {sym} {b})", "int"
+        if (ta, tb) == ("str", "str") and isinstance(node.op, ast.Add):
+            return f"({a} ++ {b})", "str"
+        if (ta, tb) == ("sset", "sset"):
+            if isinstance(node.op, ast.Sub):
+                return f"({a}.filter (fun pyElem => !({b}.contains pyElem)))", "sset"
+            if isinstance(node.op, ast.BitAnd):
+                return f"({a}.filter (fun pyElem => {b}.contains pyElem))", "sset"
+            if isinstance(node.op, ast.BitOr):
+                return f"({a} ++ {b})", "sset"
+        raise Unsupported(f"{where}: `{ast.unparse(node)}`: operator {type(node.op).__name__} on {ta} and {tb}")
+
+    # ---- calls, comprehensions ------------------------------------------------------------------------------------
+
+    def _template(self, node):
+        """a call as a key of `spec.calls`: the positional arguments other than string constants replaced by `_1`,
+        `_2`, …; returns (key, the replaced arguments)"""
+        import copy
+        c = copy.deepcopy(node)
+        holes, args = [], []
+        for a in node.args:
+            if isinstance(a, ast.Constant) and isinstance(a.value, str):
+                args.append(copy.deepcopy(a))
+            else:
+                holes.append(a)
+                args.append(ast.Name(id=f"_{len(holes)}", ctx=ast.Load()))
+        c.args = args
+        return ast.unparse(self._subst(c)), holes
+
+    def _call_atom(self, node, eff, as_statement=False):
+        if any(isinstance(a, ast.Starred) for a in node.args):
+            return None
+        key, holes = self._template(node)
+        hit = self.spec.calls.get(key)
+        if hit is None:
+            return None
+        self.uses["calls"].add(key)
+        tmpl, ty, kind = hit[0], hit[1], hit[2]
+        want = hit[3] if len(hit) > 3 else None
+        args = [self.expr(a, eff) for a in holes]
+        if want is not None and [a[1] for a in args] != list(want):
+            raise Unsupported(f"{self.fn.name}:{node.lineno}: `{ast.unparse(node)}`: argument types {[a[1] for a in args]}, "
+                              f"declared {list(want)}")
+        term = tmpl.format(None, *[a[0] for a in args])
+        if kind == "action":
+            if not as_statement:
+                raise Unsupported(f"{self.fn.name}:{node.lineno}: the action `{ast.unparse(node)}` is used as a value")
+            if self.lam or not self.spec.monadic:
+                raise Unsupported(f"{self.fn.name}:{node.lineno}: the action `{ast.unparse(node)}` in a pure position")
+            return term, "unit"
+        return self._wrap(term, kind, node, eff), ty
+
+    def _generator(self, node, eff):
+        """`<elt> for x in <list> if <c>…` -> (Lean list the variable runs over, Lean variable, scope)"""
+        where = f"{self.fn.name}:{node.lineno}"
+        if len(node.generators) != 1:
+            raise Unsupported(f"{where}: nested comprehension `{ast.unparse(node)}`")
+        g = node.generators[0]
+        if g.is_async or not isinstance(g.target, ast.Name):
+            raise Unsupported(f"{where}: comprehension target `{ast.unparse(g.target)}`")
+        src, ts = self.expr(g.iter, eff)
+        et = elem_type(ts)
+        if et is None:
+            raise Unsupported(f"{where}: comprehension over a {ts} (lists only)")
+        if g.target.id not in self.loopvars:
+            raise Unsupported(f"{where}: the comprehension variable {g.target.id!r} is also assigned elsewhere")
+        v = lean_ident(g.target.id)
+        scope = {g.target.id: (v, et)}
+        if g.ifs:
+            self.scopes.append(scope)
+            self.lam += 1
+            try:
+                conds = [self.cond(c, False) for c in g.ifs]
+            finally:
+                self.lam -= 1
+                self.scopes.pop()
+            src = f"({src}.filter (fun {v} => {' && '.join(conds)}))"
+        return src, v, scope
+
+    def _under(self, scope, f):
+        self.scopes.append(scope)
+        self.lam += 1
+        try:
+            return f()
+        finally:
+            self.lam -= 1
+            self.scopes.pop()
+
+    def e_ListComp(self, node, eff):
+        src, v, scope = self._generator(node, eff)
+        body, tb = self._under(scope, lambda: self.expr(node.elt, False))
+        if isinstance(tb, tuple) or tb in ("sdict", "sset"):
+            raise Unsupported(f"{self.fn.name}:{node.lineno}: a list of {tb}")
+        return f"({src}.map (fun {v} => {body}))", list_of(tb)
+
+    def e_Call(self, node, eff):
+        where = f"{self.fn.name}:{node.lineno}"
+        hit = self._call_atom(node, eff)
+        if hit is not None:
+            return hit
+        f = node.func
+        if node.keywords:
+            raise Unsupported(f"{where}: keyword arguments in `{ast.unparse(node)}`")
+        if isinstance(f, ast.Name) and f.id not in self.assigned and f.id not in self.spec.params:
+            if f.id == "len" and len(node.args) == 1:
+                t, ty = self.expr(node.args[0], eff)
+                if elem_type(ty) is None:
+                    raise Unsupported(f"{where}: `len` of a {ty} (lists only; the size of a set only compared with 0)")
+                return f"(Int.ofNat {t}.length)", "int"
+            if f.id in ("max", "min") and len(node.args) == 2:
+                a, ta = self.expr(node.args[0], eff)
+                b, tb = self.expr(node.args[1], eff)
+                if (ta, tb) != ("int", "int"):
+                    raise Unsupported(f"{where}: `{f.id}` of {ta} and {tb} (two integers only)")
+                return f"({f.id} {a} {b})", "int"
+            if f.id in ("any", "all") and len(node.args) == 1 and isinstance(node.args[0], (ast.GeneratorExp, ast.ListComp)):
+                g = node.args[0]
+                src, v, scope = self._generator(g, eff)
+                body = self._under(scope, lambda: self.cond(g.elt, False))
+                return f"({src}.{f.id} (fun {v} => {body}))", "bool"
+        if isinstance(f, ast.Attribute):
+            recv, tr = self.expr(f.value, eff)
+            if tr == "str":
+                if f.attr == "lower" and not node.args:
+                    return f"({self.spec.prims['lower']} {recv})", "str"
+                if f.attr == "split" and not node.args:
+                    return f"({self.spec.prims['split_ws']} {recv})", "slist"
+                if f.attr == "startswith" and len(node.args) == 1:
+                    a, ta = self.expr(node.args[0], eff)
+                    if ta != "str":
+                        raise Unsupported(f"{where}: `startswith` of a {ta}")
+                    return f"({self.spec.prims['startswith']} {recv} {a})", "bool"
+        raise Unsupported(f"{where}: call `{ast.unparse(node)}` is outside the subset and not an atom")
 
     # ---- statements -----------------------------------------------------------------------------------------------------
 
     def emit(self, depth, text):
         self.lines.append("  " * (depth + 1) + text)
+
+    def _pinned_assign(self, stmts):
+        d = dump_stmts(stmts)
+        for i, (pinned, var, term, typ) in enumerate(self.spec.assign_blocks):
+            if d == pinned:
+                return i, var, term, typ
+        return None
 
     def block(self, stmts, depth, top=False):
         """translate a statement list; returns True when every path through it returns"""
@@ -411,6 +787,14 @@ class _Fn:
                     self.uses["blocks"].add(i)
                     self.emit(depth, f"return {term}")
                     return True
+            hit = self._pinned_assign(stmts)
+            if hit is not None:
+                i, var, term, typ = hit
+                if any(isinstance(n, (ast.Return, ast.Raise, ast.Break, ast.Continue)) for s in stmts for n in ast.walk(s)):
+                    raise Unsupported(f"{self.fn.name}: pinned assigning block {i} leaves by return / raise / break")
+                self.uses["assign_blocks"].add(i)
+                self._store(var, term, typ, depth, False, f"{self.fn.name}: pinned assigning block {i}")
+                return False
         done = False
         emitted = 0
         for i, s in enumerate(stmts):
@@ -430,22 +814,38 @@ class _Fn:
         if isinstance(s, ast.Pass):
             return False
         if isinstance(s, ast.Return):
-            if s.value is None:
-                raise Unsupported(f"{where}: bare return")
+            if s.value is None or (isinstance(s.value, ast.Constant) and s.value.value is None and self.spec.ret == "unit"):
+                if self.spec.ret != "unit":
+                    raise Unsupported(f"{where}: bare return")
+                self.emit(depth, "return ()")
+                return True
             t, ty = self.expr(s.value)
             if ty != self.spec.ret:
                 raise Unsupported(f"{where}: returns a {ty}, the spec says {self.spec.ret}")
             self.emit(depth, f"return {t}")
             return True
+        if isinstance(s, ast.Raise):
+            self.emit(depth, f"throw {self._raise(s, where)}")
+            return True
         if isinstance(s, ast.If):
             self._if(s, depth, "if")
             return _terminates([s])
+        if isinstance(s, ast.Expr):
+            return self._expr_stmt(s, depth, where)
+        if isinstance(s, ast.For):
+            return self._for(s, depth, top, where)
+        if isinstance(s, ast.With):
+            return self._with(s, depth, top, where)
+        if isinstance(s, ast.AugAssign):
+            return self._augassign(s, depth, where)
         if isinstance(s, ast.Assign):
             if len(s.targets) != 1:
                 raise Unsupported(f"{where}: chained assignment")
             tgt = s.targets[0]
             if isinstance(tgt, ast.Name):
                 return self._assign(tgt.id, s.value, depth, top, where)
+            if isinstance(tgt, ast.Tuple) and all(isinstance(e, ast.Name) for e in tgt.elts):
+                return self._unpack([e.id for e in tgt.elts], s.value, top, where)
             if isinstance(tgt, ast.Subscript) and isinstance(tgt.value, ast.Name) and tgt.value.id in self.fresh_dicts \
                     and isinstance(tgt.slice, ast.Constant) and isinstance(tgt.slice.value, str):
                 t, ty = self.expr(s.value)
@@ -457,7 +857,82 @@ class _Fn:
             raise Unsupported(f"{where}: assignment target `{ast.unparse(tgt)}`")
         raise Unsupported(f"{where}: statement {type(s).__name__} `{ast.unparse(s)[:80]}`")
 
+    # -- statements without a counterpart in the decision: log calls, log-only locals
+
+    def _expr_stmt(self, s, depth, where):
+        if self._is_ignored_call(s):
+            for a in list(s.value.args) + [k.value for k in s.value.keywords]:
+                if not _harmless(a) or not self._bound(a):
+                    raise Unsupported(f"{where}: argument `{ast.unparse(a)[:60]}` of the ignored call "
+                                      f"`{_dotted(s.value.func)}` is not a plain message (or reads an unassigned local)")
+            return False
+        if isinstance(s.value, ast.Call):
+            hit = self._call_atom(s.value, True, as_statement=True)
+            if hit is not None and hit[1] == "unit":
+                self.emit(depth, hit[0])
+                return False
+        raise Unsupported(f"{where}: expression statement `{ast.unparse(s)[:80]}`")
+
+    def _raise(self, s, where):
+        if not self.spec.monadic:
+            raise Unsupported(f"{where}: raise in a function declared pure")
+        if self.lam:
+            raise Unsupported(f"{where}: raise inside a loop body")
+        e = s.exc
+        if s.cause is not None or not (isinstance(e, ast.Call) and isinstance(e.func, ast.Name) and len(e.args) == 1
+                                       and not e.keywords):
+            raise Unsupported(f"{where}: `{ast.unparse(s)[:80]}` (only `raise Cls(message)`)")
+        msg = e.args[0]
+        if isinstance(msg, ast.Constant) and isinstance(msg.value, str):
+            tmpl = msg.value
+        elif isinstance(msg, ast.JoinedStr) and _harmless(msg) and self._bound(msg):
+            tmpl = "".join(v.value if isinstance(v, ast.Constant) else
+                           (v.value.value if isinstance(v.value, ast.Constant) and isinstance(v.value.value, str)
+                            and v.conversion == -1 and v.format_spec is None else "{}")
+                           for v in msg.values)
+        else:
+            raise Unsupported(f"{where}: the message of `{ast.unparse(s)[:80]}` is not a plain (f-)string")
+        hits = [(i, term) for i, (cls, prefix, term) in enumerate(self.spec.raises)
+                if cls == e.func.id and tmpl.startswith(prefix)]
+        if len(hits) != 1:
+            raise Unsupported(f"{where}: `raise {e.func.id}({tmpl!r})` matches {len(hits)} declared exceptions")
+        self.uses["raises"].add(hits[0][0])
+        return hits[0][1]
+
+    # -- assignments
+
+    def _store(self, name, t, ty, depth, top, where, value=None):
+        """`name = <t>`: declaration (top level, or in front of the enclosing `if`) or update of a `let mut`"""
+        if ty == "sdict":
+            if not isinstance(value, ast.Dict):
+                raise Unsupported(f"{where}: a dictionary is assigned from `{ast.unparse(value) if value else '?'}` "
+                                  "(aliasing); only dictionary literals may be assigned")
+            self.fresh_dicts.add(name)
+        if ty == "unit":
+            raise Unsupported(f"{where}: None is assigned to {name!r}")
+        if name in self.locals:
+            if self.locals[name] != ty:
+                raise Unsupported(f"{where}: {name!r} changes its type from {self.locals[name]} to {ty}")
+            self.emit(depth, f"{lean_ident(name)} := {t}")
+        elif name in self.pending and self.pending[name][1] is None:
+            self.pending[name][1] = ty
+            self.locals[name] = ty
+            self.emit(depth, f"{lean_ident(name)} := {t}")
+        else:
+            if not top:
+                raise Unsupported(f"{where}: {name!r} is first assigned inside a branch (and not in every branch)")
+            self.locals[name] = ty
+            self.emit(depth, f"let mut {lean_ident(name)} : {lean_type(ty)} := {t}")
+        return False
+
     def _assign(self, name, value, depth, top, where):
+        if name in self.loopvars or any(name in sc for sc in self.scopes):
+            raise Unsupported(f"{where}: assignment to the loop variable {name!r}")
+        if name in self.logonly and name not in self.locals and _harmless(value) and self._bound(value):
+            self.logseen.add(name)
+            return False                                   # only ever read by log / exception messages
+        if isinstance(value, ast.List) and not value.elts and name in self.spec.local_types:
+            return self._store(name, "[]", self.spec.local_types[name], depth, top, where, value)
         try:
             t, ty = self.expr(value)
         except Unsupported:
@@ -466,56 +941,397 @@ class _Fn:
                 self.inline[name] = self._subst(value)
                 return False
             raise
-        if ty == "sdict":
-            if not isinstance(value, ast.Dict):
-                raise Unsupported(f"{where}: a dictionary is assigned from `{ast.unparse(value)}` (aliasing); only "
-                                  "dictionary literals may be assigned")
-            self.fresh_dicts.add(name)
-        if name in self.locals:
-            if self.locals[name] != ty:
-                raise Unsupported(f"{where}: {name!r} changes its type from {self.locals[name]} to {ty}")
-            self.emit(depth, f"{lean_ident(name)} := {t}")
-        else:
-            if not top:
-                raise Unsupported(f"{where}: {name!r} is first assigned inside a branch")
-            self.locals[name] = ty
-            self.emit(depth, f"let mut {lean_ident(name)} : {lean_type(ty)} := {t}")
+        return self._store(name, t, ty, depth, top, where, value)
+
+    def _unpack(self, names, value, top, where):
+        """`a, b = <opaque>` at the top level: `a` / `b` stand for `<opaque>[0]` / `<opaque>[1]` inside atoms"""
+        if not (top and _opaque_ok(value) and all(self.assigned.get(n) == 1 and n not in self.locals for n in names)
+                and len(set(names)) == len(names)):
+            raise Unsupported(f"{where}: tuple assignment `{', '.join(names)} = {ast.unparse(value)[:60]}`")
+        base = self._subst(value)
+        for i, n in enumerate(names):
+            import copy
+            self.inline[n] = ast.Subscript(value=copy.deepcopy(base), slice=ast.Constant(value=i), ctx=ast.Load())
+        return False
+
+    def _augassign(self, s, depth, where):
+        if not isinstance(s.target, ast.Name) or s.target.id not in self.locals:
+            raise Unsupported(f"{where}: `{ast.unparse(s)[:80]}` (augmented assignment to a declared local only)")
+        name = s.target.id
+        x, tx = lean_ident(name), self.locals[name]
+        t, ty = self.expr(s.value)
+        self.emit(depth, f"{x} := {self._aug(x, tx, s.op, t, ty, where)}")
+        return False
+
+    def _aug(self, x, tx, op, t, ty, where):
+        if (tx, ty) == ("int", "int") and isinstance(op, (ast.Add, ast.Sub)):
+            return f"({x} {'+' if isinstance(op, ast.Add) else '-'} {t})"
+        if (tx, ty) == ("bool", "bool") and isinstance(op, (ast.BitOr, ast.BitAnd)):
+            return f"({x} {'||' if isinstance(op, ast.BitOr) else '&&'} {t})"
+        if (tx, ty) == ("str", "str") and isinstance(op, ast.Add):
+            return f"({x} ++ {t})"
+        if tx == ty and elem_type(tx) is not None and isinstance(op, ast.Add):
+            return f"({x} ++ {t})"
+        raise Unsupported(f"{where}: augmented assignment {type(op).__name__} of a {ty} to a {tx}")
+
+    # -- if
+
+    def _first_assigned(self, stmts, out):
+        """names an `if` statement assigns that are not declared yet (pinned bodies count through their variable)"""
+        hit = self._pinned_assign(stmts)
+        if hit is not None:
+            out.setdefault(hit[1], None)
+            return
+        if self._pinned(stmts):
+            return
+        for s in stmts:
+            if isinstance(s, ast.Assign) and len(s.targets) == 1 and isinstance(s.targets[0], ast.Name):
+                out.setdefault(s.targets[0].id, None)
+            elif isinstance(s, ast.If):
+                self._first_assigned(s.body, out)
+                self._first_assigned(s.orelse, out)
+            elif isinstance(s, ast.With):
+                self._first_assigned(s.body, out)
+
+    def _def_assigns(self, stmts, name):
+        """every path through `stmts` assigns `name` (or leaves the function)"""
+        hit = self._pinned_assign(stmts)
+        if hit is not None:
+            return hit[1] == name
+        for s in stmts:
+            if isinstance(s, ast.Assign) and len(s.targets) == 1 and isinstance(s.targets[0], ast.Name) \
+                    and s.targets[0].id == name:
+                return True
+            if isinstance(s, (ast.Return, ast.Raise)):
+                return True
+            if isinstance(s, ast.If) and s.orelse and self._def_assigns(s.body, name) and self._def_assigns(s.orelse, name):
+                return True
+            if isinstance(s, ast.With) and self._def_assigns(s.body, name):
+                return True
         return False
 
     def _if(self, s, depth, kw):
-        c, tc = self.expr(s.test)
-        if tc != "bool":
-            raise Unsupported(f"{self.fn.name}:{s.lineno}: the condition `{ast.unparse(s.test)}` is a {tc} "
-                              "(truthiness of other values only through atoms)")
+        mine = []
+        if kw == "if":
+            cand = {}
+            self._first_assigned([s], cand)
+            for name in cand:
+                if name in self.locals or name in self.pending or name in self.logonly or name in self.inline:
+                    continue
+                if not self._def_assigns([s], name):
+                    continue                               # refused at the assignment ("first assigned inside a branch")
+                self.pending[name] = [len(self.lines), None, depth]
+                self.lines.append(None)
+                mine.append(name)
+        c = self.cond(s.test)
         self.emit(depth, f"{kw} {c} then")
         self.block(s.body, depth + 1)
         if s.orelse:
-            if len(s.orelse) == 1 and isinstance(s.orelse[0], ast.If) and not self._pinned(s.orelse):
+            if len(s.orelse) == 1 and isinstance(s.orelse[0], ast.If) and not self._pinned(s.orelse) \
+                    and self._pinned_assign(s.orelse) is None:
                 self._if(s.orelse[0], depth, "else if")
             else:
                 self.emit(depth, "else")
                 self.block(s.orelse, depth + 1)
+        for name in mine:
+            idx, ty, d = self.pending.pop(name)
+            if ty is None:
+                self.lines[idx] = ""
+                continue
+            if ty not in LEAN_DEFAULTS:
+                raise Unsupported(f"{self.fn.name}:{s.lineno}: {name!r} (a {ty}) is first assigned inside the branches of an if")
+            self.lines[idx] = "  " * (d + 1) + f"let mut {lean_ident(name)} : {lean_type(ty)} := {LEAN_DEFAULTS[ty]}"
+        if mine:
+            self.lines = [l for l in self.lines if l != ""]
+            # indices of outer pending declarations are in front of ours: unaffected
 
     def _pinned(self, stmts):
         d = dump_stmts(stmts)
         return any(d == p for p, _, _ in self.spec.blocks)
+
+    # -- with
+
+    def _with(self, s, depth, top, where):
+        if len(s.items) != 1:
+            raise Unsupported(f"{where}: with of several context managers")
+        it = s.items[0]
+        ce = it.context_expr
+        if not (isinstance(ce, ast.Call) and _dotted(ce.func) in self.spec.transparent_with
+                and all(_harmless(a) for a in ce.args) and not ce.keywords):
+            raise Unsupported(f"{where}: `with {ast.unparse(ce)[:60]}`: not declared transparent")
+        if it.optional_vars is not None:
+            if not (isinstance(it.optional_vars, ast.Name) and it.optional_vars.id in self.logonly):
+                raise Unsupported(f"{where}: the value bound by `with … as {ast.unparse(it.optional_vars)}` is used")
+        done = False
+        for b in s.body:
+            if done:
+                raise Unsupported(f"{self.fn.name}:{b.lineno}: statement after a return")
+            done = self.stmt(b, depth, top)
+        return done
+
+    # -- for
+
+    def _for(self, s, depth, top, where):
+        if isinstance(s.iter, (ast.List, ast.Tuple)) and not any(isinstance(e, ast.Starred) for e in s.iter.elts) \
+                and self.atom(s.iter) is None and not _str_elements(s.iter):
+            return self._for_unrolled(s, depth, top, where)
+        if any(isinstance(n, ast.Continue) for n in ast.walk(s)):
+            raise Unsupported(f"{where}: `continue`")
+        if not isinstance(s.target, ast.Name) or s.target.id not in self.loopvars:
+            raise Unsupported(f"{where}: loop target `{ast.unparse(s.target)}` (a name that is bound by this loop only)")
+        src, ts = self.expr(s.iter)
+        et = elem_type(ts)
+        if et is None:
+            raise Unsupported(f"{where}: loop over a {ts} (lists only)")
+        v = lean_ident(s.target.id)
+        scope = {s.target.id: (v, et)}
+        # leading loop-local bindings  `y = <pure expression>`  (each name assigned here only and unknown outside)
+        body = list(s.body)
+        lets = []
+        all_names_outside = {x.id for x in ast.walk(self.fn) if isinstance(x, ast.Name)
+                             and not any(x is y for y in ast.walk(s))}
+        self.scopes.append(scope)
+        self.lam += 1
+        try:
+            while body and isinstance(body[0], ast.Assign) and len(body[0].targets) == 1 \
+                    and isinstance(body[0].targets[0], ast.Name) and self.assigned.get(body[0].targets[0].id) == 1 \
+                    and body[0].targets[0].id not in all_names_outside and len(body) > 1:
+                name, val = body[0].targets[0].id, body[0].value
+                if name in self.logonly and _harmless(val) and self._bound(val):
+                    self.logseen.add(name)
+                    body.pop(0)
+                    continue
+                try:
+                    t, ty = self.expr(val, False)
+                    scope[name] = (lean_ident(name), ty)
+                    lets.append(f"let {lean_ident(name)} : {lean_type(ty)} := {t}; ")
+                except Unsupported:
+                    if not _opaque_ok(val):
+                        raise
+                    self.inline[name] = self._subst(val)
+                body.pop(0)
+            pre = "".join(lets)
+            kind = self._loop_kind(s, body)
+            if kind == "find":
+                test = body[0]
+                c = self.cond(test.test, False)
+                self.lam -= 1                              # the match arm is a `do` sequence again
+                try:
+                    arm_lets = [l[:-2] for l in lets]
+                    self.emit(depth, f"match ({src}.find? (fun {v} => {pre}{c})) with")
+                    self.emit(depth, f"| some {v} =>")
+                    for l in arm_lets:
+                        self.emit(depth + 1, l)
+                    r = test.body[0]
+                    t, ty = self.expr(r.value) if r.value is not None else ("()", "unit")
+                    if ty != self.spec.ret:
+                        raise Unsupported(f"{where}: returns a {ty}, the spec says {self.spec.ret}")
+                    self.emit(depth + 1, f"return {t}")
+                    self.emit(depth, "| none => pure ()")
+                finally:
+                    self.lam += 1
+                return False
+            if kind == "any":
+                flag = body[0].targets[0].id
+                parts = [self.cond(body[0].value, False)]
+                for b in body[1:-1]:
+                    if isinstance(b, ast.AugAssign):
+                        parts.append(self.cond(b.value, False))
+                    else:                                  # flag = flag or e
+                        parts.append(self.cond(b.value.values[1], False))
+                text = f"({src}.any (fun {v} => {pre}({' || '.join(parts)})))"
+                self.lam -= 1
+                try:
+                    self._store(flag, text, "bool", depth, top, where)
+                finally:
+                    self.lam += 1
+                return False
+            # fold over one accumulator
+            acc = kind
+            a = lean_ident(acc)
+            step = self._fold_seq(body, acc, where)
+            self.emit(depth, f"{a} := {src}.foldl (fun {a} {v} => {pre}{step}) {a}")
+            return False
+        finally:
+            self.lam -= 1
+            self.scopes.pop()
+
+    def _loop_kind(self, s, body):
+        """which of the three loop shapes `body` has: "find" | "any" | <name of the accumulator>"""
+        where = f"{self.fn.name}:{s.lineno}"
+        # (1)  for x in L: [lets]; if c: return e
+        if len(body) == 1 and isinstance(body[0], ast.If) and not body[0].orelse and len(body[0].body) == 1 \
+                and isinstance(body[0].body[0], ast.Return) and not s.orelse:
+            return "find"
+        # (2)  for x in L: [lets]; v = e; (v |= e | v = v or e)*; if v: break      else: v = False
+        if len(body) >= 2 and isinstance(body[0], ast.Assign) and len(body[0].targets) == 1 \
+                and isinstance(body[0].targets[0], ast.Name) and isinstance(body[-1], ast.If):
+            flag = body[0].targets[0].id
+            last = body[-1]
+            ok = isinstance(last.test, ast.Name) and last.test.id == flag and not last.orelse and len(last.body) == 1 \
+                and isinstance(last.body[0], ast.Break) and len(s.orelse) == 1 and isinstance(s.orelse[0], ast.Assign) \
+                and len(s.orelse[0].targets) == 1 and isinstance(s.orelse[0].targets[0], ast.Name) \
+                and s.orelse[0].targets[0].id == flag and isinstance(s.orelse[0].value, ast.Constant) \
+                and s.orelse[0].value.value is False
+            for b in body[1:-1]:
+                ok = ok and ((isinstance(b, ast.AugAssign) and isinstance(b.target, ast.Name) and b.target.id == flag
+                              and isinstance(b.op, ast.BitOr))
+                             or (isinstance(b, ast.Assign) and len(b.targets) == 1 and isinstance(b.targets[0], ast.Name)
+                                 and b.targets[0].id == flag and isinstance(b.value, ast.BoolOp)
+                                 and isinstance(b.value.op, ast.Or) and len(b.value.values) == 2
+                                 and isinstance(b.value.values[0], ast.Name) and b.value.values[0].id == flag))
+            mentions = [x for b in body[:-1] for x in ast.walk(b.value) if isinstance(x, ast.Name) and x.id == flag]
+            allowed = sum(1 for b in body[1:-1] if isinstance(b, ast.Assign))
+            if ok and len(mentions) == allowed and self.assigned.get(flag) == len(body) - 1 + 1:
+                return "any"
+        # (3)  for x in L: [lets]; statements that update ONE declared local
+        if s.orelse or any(isinstance(n, (ast.Break, ast.Return, ast.Raise)) for b in body for n in ast.walk(b)):
+            raise Unsupported(f"{where}: this loop shape is outside the subset (accepted: `if c: return e` search loops, "
+                              "flag loops with `break` and `else: flag = False`, accumulations without break/return)")
+        accs = set()
+        for b in body:
+            for n in ast.walk(b):
+                if isinstance(n, ast.Name) and isinstance(n.ctx, ast.Store):
+                    accs.add(n.id)
+                if isinstance(n, ast.Expr) and isinstance(n.value, ast.Call) and isinstance(n.value.func, ast.Attribute) \
+                        and n.value.func.attr == "append" and isinstance(n.value.func.value, ast.Name):
+                    accs.add(n.value.func.value.id)
+        if len(accs) != 1 or list(accs)[0] not in self.locals:
+            raise Unsupported(f"{where}: the loop body updates {sorted(accs)}; exactly one local declared before the "
+                              "loop may be updated")
+        return list(accs)[0]
+
+    def _fold_seq(self, stmts, acc, where):
+        """the value of the accumulator after `stmts`, as a Lean expression in which `acc` is its value before"""
+        a, ta = lean_ident(acc), self.locals[acc]
+        steps = []
+        for b in stmts:
+            w = f"{self.fn.name}:{b.lineno}"
+            if isinstance(b, ast.Pass) or self._is_ignored_call(b):
+                continue
+            if isinstance(b, ast.AugAssign) and isinstance(b.target, ast.Name) and b.target.id == acc:
+                t, ty = self.expr(b.value, False)
+                steps.append(self._aug(a, ta, b.op, t, ty, w))
+            elif isinstance(b, ast.Assign) and len(b.targets) == 1 and isinstance(b.targets[0], ast.Name) \
+                    and b.targets[0].id == acc:
+                t, ty = self.expr(b.value, False)
+                if ty != ta:
+                    raise Unsupported(f"{w}: {acc!r} changes its type from {ta} to {ty}")
+                steps.append(t)
+            elif isinstance(b, ast.Expr) and isinstance(b.value, ast.Call) and isinstance(b.value.func, ast.Attribute) \
+                    and b.value.func.attr == "append" and isinstance(b.value.func.value, ast.Name) \
+                    and b.value.func.value.id == acc and len(b.value.args) == 1 and not b.value.keywords:
+                t, ty = self.expr(b.value.args[0], False)
+                if elem_type(ta) != ty:
+                    raise Unsupported(f"{w}: a {ty} appended to a {ta}")
+                steps.append(f"({a} ++ [{t}])")
+            elif isinstance(b, ast.If):
+                c = self.cond(b.test, False)
+                steps.append(f"(if {c} then {self._fold_seq(b.body, acc, where)} else "
+                             f"{self._fold_seq(b.orelse, acc, where) if b.orelse else a})")
+            else:
+                raise Unsupported(f"{w}: statement `{ast.unparse(b)[:60]}` in an accumulating loop")
+        if not steps:
+            return a
+        if len(steps) == 1:
+            return steps[0]
+        return "(" + "".join(f"let {a} : {lean_type(ta)} := {e}; " for e in steps) + a + ")"
+
+    def _for_unrolled(self, s, depth, top, where):
+        """`for a, b in [(e1, e2), …]:` over a literal list: the body once per element, the targets replaced by the
+        element's expressions (which the body must not assign)"""
+        import copy
+        if s.orelse or any(isinstance(n, (ast.Break, ast.Continue)) for n in ast.walk(s)):
+            raise Unsupported(f"{where}: break / continue / else in a loop over a literal list")
+        tgts = [s.target] if isinstance(s.target, ast.Name) else list(s.target.elts) if isinstance(s.target, ast.Tuple) else None
+        if tgts is None or not all(isinstance(t, ast.Name) and t.id in self.loopvars for t in tgts):
+            raise Unsupported(f"{where}: loop target `{ast.unparse(s.target)}`")
+        names = [t.id for t in tgts]
+        outside = [x for x in ast.walk(self.fn) if isinstance(x, ast.Name) and x.id in names]
+        inside = {id(x) for x in ast.walk(s)}
+        if any(id(x) not in inside for x in outside):
+            raise Unsupported(f"{where}: the loop variables {names} are used after the loop")
+        stored = {x.id for b in s.body for x in ast.walk(b) if isinstance(x, ast.Name) and isinstance(x.ctx, ast.Store)}
+        done = False
+        for el in s.iter.elts:
+            vals = [el] if isinstance(s.target, ast.Name) else list(el.elts) if isinstance(el, ast.Tuple) else None
+            if vals is None or len(vals) != len(names):
+                raise Unsupported(f"{where}: element `{ast.unparse(el)}` does not match the loop target")
+            for v in vals:
+                if not isinstance(v, (ast.Name, ast.Constant)):
+                    raise Unsupported(f"{where}: element `{ast.unparse(v)}` (names and constants only)")
+                if isinstance(v, ast.Name) and v.id in stored:
+                    raise Unsupported(f"{where}: the loop body assigns {v.id!r}, which the loop runs over")
+            env = dict(zip(names, vals))
+
+            class T(ast.NodeTransformer):
+                def visit_Name(self, n):
+                    if n.id in env:
+                        if not isinstance(n.ctx, ast.Load):
+                            raise Unsupported(f"{where}: assignment to the loop variable {n.id!r}")
+                        return copy.deepcopy(env[n.id])
+                    return n
+
+                def visit_FormattedValue(self, n):
+                    self.generic_visit(n)
+                    return n
+            for b in s.body:
+                if done:
+                    raise Unsupported(f"{self.fn.name}:{b.lineno}: statement after a return")
+                b2 = ast.fix_missing_locations(T().visit(copy.deepcopy(b)))
+                done = self.stmt(b2, depth, top)
+        return done
+
+
+def _dotted(node):
+    """`a.b.c` for a Name / Attribute chain, else None"""
+    parts = []
+    while isinstance(node, ast.Attribute):
+        parts.append(node.attr)
+        node = node.value
+    if isinstance(node, ast.Name):
+        return ".".join([node.id] + parts[::-1])
+    return None
+
+
+HARMLESS_FUNCS = {"os.path.dirname", "str", "len"}
+
+
+def _harmless(node):
+    """an expression that only builds a message: names, attributes, constants, f-strings, conditional expressions,
+    `"sep".join(name)` and a few pure library calls"""
+    for n in ast.walk(node):
+        if isinstance(n, (ast.Constant, ast.JoinedStr, ast.FormattedValue, ast.Name, ast.Attribute, ast.Load, ast.IfExp)):
+            continue
+        if isinstance(n, ast.Call) and not n.keywords:
+            f = n.func
+            if isinstance(f, ast.Attribute) and f.attr == "join" and isinstance(f.value, ast.Constant) \
+                    and isinstance(f.value.value, str) and len(n.args) == 1:
+                continue
+            if _dotted(f) in HARMLESS_FUNCS:
+                continue
+        return False
+    return True
 
 
 def _terminates(stmts):
     if not stmts:
         return False
     s = stmts[-1]
-    if isinstance(s, ast.Return):
+    if isinstance(s, (ast.Return, ast.Raise)):
         return True
     if isinstance(s, ast.If):
         return bool(s.orelse) and _terminates(s.body) and _terminates(s.orelse)
+    if isinstance(s, ast.With):
+        return _terminates(s.body)
     return False
 
 
 def _opaque_ok(node):
-    """an opaque right-hand side may only consist of names, attributes, constant subscripts and method calls on them"""
+    """an opaque right-hand side may only consist of names, attributes, constant subscripts and method calls on them
+    (and a conditional expression choosing between such)"""
     for n in ast.walk(node):
-        if not isinstance(n, (ast.Name, ast.Attribute, ast.Subscript, ast.Call, ast.Constant, ast.Load)):
+        if not isinstance(n, (ast.Name, ast.Attribute, ast.Subscript, ast.Call, ast.Constant, ast.Load, ast.IfExp)):
             return False
     return True
 
@@ -525,23 +1341,35 @@ def translate(fn, spec, consts=None):
     tr = _Fn(fn, spec, consts or {})
     done = tr.block(fn.body, 0, top=True)
     if not done:
-        raise Unsupported(f"{fn.name}: a path reaches the end of the function without a return (Python returns None)")
+        if spec.ret != "unit":
+            raise Unsupported(f"{fn.name}: a path reaches the end of the function without a return (Python returns None)")
+        tr.emit(0, "return ()")
     unused = sorted(set(range(len(spec.blocks))) - tr.uses["blocks"])
     if unused:
         raise Unsupported(f"{fn.name}: pinned block(s) {unused} do not occur as branch bodies any more")
+    unused = sorted(set(range(len(spec.assign_blocks))) - tr.uses["assign_blocks"])
+    if unused:
+        raise Unsupported(f"{fn.name}: pinned assigning block(s) {unused} do not occur as branch bodies any more")
+    unused = sorted(set(range(len(spec.raises))) - tr.uses["raises"])
+    if unused:
+        raise Unsupported(f"{fn.name}: declared exception(s) {[spec.raises[i][:2] for i in unused]} are not raised any more")
     binders = " ".join(f"({lean_ident(n) if n.isidentifier() else n} : {t})" for n, t in spec.binders)
     rett = lean_type(spec.ret)
     if spec.monad == "except":
         head = f"def {spec.lean_name} {binders} : Except Err ({rett}) := do"
-    else:
+    elif spec.monad == "pure":
         head = f"def {spec.lean_name} {binders} : {rett} := Id.run do"
+    else:
+        head = f"def {spec.lean_name} {binders} : {spec.monad} ({rett}) := do"
     import copy
     shown = copy.deepcopy(fn)
     if shown.body and isinstance(shown.body[0], ast.Expr) and isinstance(shown.body[0].value, ast.Constant) \
             and isinstance(shown.body[0].value.value, str) and len(shown.body) > 1:
         shown.body = shown.body[1:]                      # the docstring is not part of the meaning
     src = ast.unparse(shown).replace("-/", "- /").replace("/-", "/ -")
-    out = []
+    out = list(spec.prelude)
+    if spec.prelude:
+        out.append("")
     if spec.doc:
         out.append("/-- " + spec.doc.replace("-/", "- /") + " -/")
     out.append(head)
@@ -697,7 +1525,97 @@ def extract_pool(ctx=None):
     return write_if_changed(_lean_path("GenPool.lean"), pool_source())
 
 
+
+# ---- TestNode.should_rerun / shared_filtered_results (C10) ---------------------------------------------------------------
+
+RULES_PRELUDE = [
+    "/-- `params.get_numeric(key, default)` = `int(params.get(key, default))` for an integer default; a value that `int()`",
+    "rejects is Python's ValueError -/",
+    "def getNumeric (o : Option String) (dflt : Int) : Except Err Int :=",
+    "  match o with",
+    "  | none => pure dflt",
+    "  | some s => match parseInt s with",
+    "    | some m => pure m",
+    "    | none => throw Err.badTries",
+    "",
+    "/-- `worker.id` / `self.started_worker.swarm_id` … where Python evaluates them (behind `worker and …`) -/",
+    "def idOf (w : Option Worker) : String := (w.map (·.id)).getD \"\"",
+    "def swarmOf (w : Option Worker) : String := (w.map (·.swarmId)).getD \"\"",
+]
+
+RERUN_ELSE_BLOCK = (
+    "old_started_worker = self.started_worker\n"
+    "self.started_worker = old_started_worker or worker\n"
+    "test_statuses = [r[\"status\"].lower() for r in self.shared_filtered_results]\n"
+    "self.started_worker = old_started_worker\n")
+
+RERUN_SPEC = Spec(
+    "genShouldRerun",
+    binders=[("c", "Cfg"), ("w", "Option Worker"), ("shared", "List Result")],
+    params={"worker": ("w.isSome", "bool")},
+    ret="bool", monad="except",
+    atoms={
+        "self.params.get('dry_run', 'no')": ("(c.dryRun.getD \"no\")", "str"),
+        "self.is_flat()": ("c.flat", "bool"),
+        "len(self.cloned_nodes) > 0": ("c.cloneSource", "bool"),
+        "worker.id": ("(idOf w)", "str"),
+        "self.params['name']": ("c.name", "str"),
+        "self.params.get('replay')": ("(truthy c.replay)", "bool"),
+        "self.params.get_list('rerun_status', 'fail,error,warn', delimiter=',')":
+            ("(getListChar ',' \"fail,error,warn\" c.rerunStatus)", "slist"),
+        "self.params.get_list('rerun_status', [])": ("(getListWs c.rerunStatus)", "slist"),
+        "self.params.get_list('stop_status', [])": ("(getListWs c.stopStatus)", "slist"),
+        "len(self.get_stateful_objects()) == 0": ("(!c.stateful)", "bool"),
+        "self.shared_results": ("shared", ("list", "Result")),
+    },
+    calls={"self.params.get_numeric('max_tries', _1)": ("getNumeric c.maxTries {1}", "int", "raises", ["int"])},
+    fields={("Result", "['status']"): ("{0}.status", "str")},
+    assign_blocks=[(RERUN_ELSE_BLOCK, "test_statuses",
+                    "((genFilteredResults c (c.startedWorker <|> w) shared).map (fun r => lower r.status))", "slist")],
+    raises=[("RuntimeError", "Worker {} should not consider rerunning", "Err.runtimeError"),
+            ("ValueError", "Value of rerun status must be a valid test status", "Err.badRerunStatus"),
+            ("ValueError", "Value of stop status must be a valid test status", "Err.badStopStatus"),
+            ("ValueError", "Number of max_tries cannot be less than zero", "Err.negativeTries")],
+    ignored_calls={"logging.debug", "logging.info", "logging.warning"},
+    prelude=RULES_PRELUDE,
+    doc="`TestNode.should_rerun` of avocado_i2n/cartgraph/node.py, translated statement by statement (`w.isSome` = a "
+        "worker was given; the body of the stateful branch is pinned verbatim and stands for the filtered statuses)")
+
+FILTERED_SPEC = Spec(
+    "genFilteredResults",
+    binders=[("c", "Cfg"), ("started", "Option Worker"), ("shared", "List Result")],
+    params={}, ret=("list", "Result"), monad="pure",
+    atoms={
+        "self.shared_results": ("shared", ("list", "Result")),
+        "self.started_worker": ("started.isSome", "bool"),
+        "'swarm' in self.params['pool_scope']": ("(isSubstr \"swarm\" c.poolScope)", "bool"),
+        "'cluster' in self.params['pool_scope']": ("(isSubstr \"cluster\" c.poolScope)", "bool"),
+        "self.params.get('nets_spawner')": ("c.netsSpawner", "optstr"),
+        "self.started_worker.swarm_id": ("(swarmOf started)", "str"),
+        "self.started_worker.id": ("(idOf started)", "str"),
+    },
+    fields={("Result", "['name']"): ("{0}.name", "str")},
+    local_types={"results": ("list", "Result")},
+    doc="`TestNode.shared_filtered_results` of avocado_i2n/cartgraph/node.py (`started` = `self.started_worker`)")
+
+
+def rules_source(path=None):
+    path = path or _src("PYGEN_NODE_SRC", "avocado_i2n/cartgraph/node.py")
+    defs = [generate(path, "TestNode.shared_filtered_results", FILTERED_SPEC),
+            generate(path, "TestNode.should_rerun", RERUN_SPEC)]
+    defs[0] = RULES_PRELUDE + [""] + defs[0]
+    defs[1] = defs[1][len(RULES_PRELUDE) + 1:]
+    return render_file("harness/pygen.py:extract_rules (called by harness/props/c10.py:extract) from "
+                       "avocado_i2n/cartgraph/node.py", ["I2N.Model.Rules"], "I2N.Extracted.GenRules", ["I2N.Rules"], defs)
+
+
+def extract_rules(ctx=None):
+    return write_if_changed(_lean_path("GenRules.lean"), rules_source())
+
+
+SOURCES = {"tunnel": tunnel_source, "scope": scope_source, "pool": pool_source, "rules": rules_source}
+
 if __name__ == "__main__":
     import sys
-    for name in sys.argv[1:] or ["tunnel", "scope", "pool"]:
-        print({"tunnel": tunnel_source, "scope": scope_source, "pool": pool_source}[name]())
+    for name in sys.argv[1:] or list(SOURCES):
+        print(SOURCES[name]())
